@@ -448,4 +448,87 @@ theorem find_of_nodup_ids : ∀ {l : List Node} {n : Node}, (l.map (·.id)).Nodu
       rw [List.find?_cons, hb]
       exact find_of_nodup_ids hnd.2 h
 
+/-! ## generate_id: the formatting pipeline -/
+
+theorem natToBits_add_mul (len c x : Nat) : natToBits len (2 ^ len * c + x) = natToBits len x := by
+  induction len generalizing c with
+  | zero => rfl
+  | succ k ih =>
+    simp only [natToBits]
+    have h1 : 2 ^ (k + 1) * c + x = 2 ^ k * (2 * c) + x := by rw [Nat.pow_succ, Nat.mul_assoc]
+    rw [h1, ih (2 * c)]
+    have hpos : 0 < 2 ^ k := Nat.pow_pos (by decide)
+    rw [Nat.mul_add_div hpos]
+    have : (2 * c + x / 2 ^ k) % 2 = (x / 2 ^ k) % 2 := by omega
+    rw [this]
+
+theorem natToBits_bitsToNat (l : Bits) : natToBits l.length (bitsToNat l) = l := by
+  induction l with
+  | nil => rfl
+  | cons b l ih =>
+    have hlt := bitsToNat_lt l
+    have hpos : 0 < 2 ^ l.length := Nat.pow_pos (by decide)
+    simp only [List.length_cons, natToBits, bitsToNat]
+    cases b
+    · simp only [Bool.false_eq_true, if_false, Nat.zero_add]
+      rw [Nat.div_eq_of_lt hlt, ih]; simp
+    · simp only [if_true]
+      have h1 : 2 ^ l.length + bitsToNat l = 2 ^ l.length * 1 + bitsToNat l := by omega
+      rw [h1, natToBits_add_mul, ih, Nat.mul_add_div hpos, Nat.div_eq_of_lt hlt]
+      simp
+
+theorem sizeAux_le (f : Nat) : ∀ (r n : Nat), r < 2 ^ n → sizeAux f r ≤ n := by
+  induction f with
+  | zero => intro r n _; simp [sizeAux]
+  | succ f ih =>
+    intro r n h
+    simp only [sizeAux]
+    split
+    · omega
+    · rename_i hr
+      cases n with
+      | zero => simp at h; omega
+      | succ n =>
+        have : r / 2 < 2 ^ n := by
+          rw [Nat.pow_succ] at h
+          omega
+        have := ih (r / 2) n this
+        omega
+
+theorem bitSize_le {r n : Nat} (h : r < 2 ^ n) : bitSize r ≤ n := sizeAux_le r r n h
+
+theorem formatBin_eq {n r : Nat} (hn : 1 ≤ n) (h : r < 2 ^ n) : formatBin n r = natToBits n r := by
+  unfold formatBin
+  have := bitSize_le h
+  have : max n (max 1 (bitSize r)) = n := by omega
+  rw [this]
+
+theorem hexBytes_eq {w v : Nat} (hw : w % 8 = 0) (h : v < 2 ^ w) : hexBytes w v = some (natToBits w v) := by
+  unfold hexBytes
+  have := bitSize_le h
+  have hd : max (w / 4) ((bitSize v + 3) / 4) = w / 4 := by omega
+  simp only [hd]
+  have he : ¬ (w / 4 % 2 = 1) := by omega
+  have h4 : 4 * (w / 4) = w := by omega
+  rw [if_neg he, h4]
+
+/-- what the code computes when the random source keeps its promise `r < 2^n` -/
+theorem generateId_eq {w : Nat} (b : Bucket) (r : Nat) (hw : w % 8 = 0) (hp : b.pfx.length ≤ w)
+    (hr : r < 2 ^ (w - b.pfx.length)) :
+    b.generateId w r = some (b.pfx ++ natToBits (w - b.pfx.length) r) := by
+  unfold Bucket.generateId
+  have hsuf : (if w - b.pfx.length = 0 then [] else formatBin (w - b.pfx.length) r) = natToBits (w - b.pfx.length) r := by
+    by_cases h0 : w - b.pfx.length = 0
+    · simp [h0, natToBits]
+    · rw [if_neg h0, formatBin_eq (by omega) hr]
+  simp only [hsuf]
+  have hlen : (b.pfx ++ natToBits (w - b.pfx.length) r).length = w := by
+    simp [natToBits_length]; omega
+  have hv := bitsToNat_lt (b.pfx ++ natToBits (w - b.pfx.length) r)
+  rw [hlen] at hv
+  rw [hexBytes_eq hw hv]
+  have := natToBits_bitsToNat (b.pfx ++ natToBits (w - b.pfx.length) r)
+  rw [hlen] at this
+  rw [this]
+
 end Ipv8.C14
